@@ -238,7 +238,8 @@ static void judge(const char* name, int failed, size_t code, int nf0, int attemp
         if (newfail) { g_succ_despite_fail++; oplog(name, "note-success-despite-alloc-failure"); }
     }
 }
-#define MAXTRY (g_nfault + 2)
+static int g_single;   /* 1: an operation is attempted once (no retry of the same operation after the reset) */
+#define MAXTRY (g_single ? 1 : g_nfault + 2)
 
 static int check_rt(const char* name, const void* cbuf, size_t csize, const void* src, size_t n, const void* dict, size_t dictSize) {
     static char* out; static size_t cap;
@@ -262,7 +263,8 @@ static int op_compress2(const char* name, ZSTD_CCtx* c, const void* src, size_t 
         if (!ZSTD_isError(r)) { check_rt(name, g_scratch, r, src, n, dict, dictSize); return 0; }
         {   size_t rr; beg("CCtx_reset", -1, -1); rr = ZSTD_CCtx_reset(c, ZSTD_reset_session_only); endc(ZSTD_isError(rr) ? "E" : "ok"); if (ZSTD_isError(rr)) violation("reset-failed", name); }
     }
-    violation("not-reusable-after-reset", name); return 1;
+    if (!g_single) violation("not-reusable-after-reset", name);
+    return 1;
 }
 
 static int op_cstream(const char* name, ZSTD_CCtx* c, const void* src, size_t n, size_t chunk, size_t ochunk, int flushEvery) {
@@ -290,7 +292,8 @@ done:
         if (!ZSTD_isError(r)) { check_rt(name, g_scratch, op, src, n, NULL, 0); return 0; }
         {   size_t rr; beg("CCtx_reset", -1, -1); rr = ZSTD_CCtx_reset(c, ZSTD_reset_session_only); endc(ZSTD_isError(rr) ? "E" : "ok"); if (ZSTD_isError(rr)) violation("reset-failed", name); }
     }
-    violation("not-reusable-after-reset", name); return 1;
+    if (!g_single) violation("not-reusable-after-reset", name);
+    return 1;
 }
 
 static int op_dstream(const char* name, ZSTD_DCtx* d, const void* frame, size_t fn, const void* expect, size_t en, size_t chunk, size_t ochunk) {
@@ -323,7 +326,8 @@ done:
         }
         {   size_t rr; beg("DCtx_reset", -1, -1); rr = ZSTD_DCtx_reset(d, ZSTD_reset_session_only); endc(ZSTD_isError(rr) ? "E" : "ok"); if (ZSTD_isError(rr)) violation("reset-failed", name); }
     }
-    violation("not-reusable-after-reset", name); return 1;
+    if (!g_single) violation("not-reusable-after-reset", name);
+    return 1;
 }
 
 static ZSTD_CCtx* mk_cctx(void) {
@@ -381,6 +385,29 @@ static void sc_compress_grow(int v) {
     mark("shrink");
     for (i = 0; i < 132; i++) op_compress2("compress2-tiny", c, g_src + i, 1000, NULL, 0);   /* oversized for > 128 uses -> realloc smaller */
     mark("free"); fr_cctx(c);
+}
+
+/* a failed operation followed, after the reset, by a DIFFERENT (smaller) operation: whatever the failed (re)allocation
+   left behind (sizes, pointers) must describe the context truthfully */
+static void sc_fail_then_small(int v) {
+    if (v == 0) {
+        ZSTD_CCtx* c;
+        mark("create"); c = mk_cctx(); if (!c) return;
+        setp(c, ZSTD_c_compressionLevel, 3);
+        mark("small"); op_compress2("compress2-small", c, g_src, 3000, NULL, 0);
+        mark("big-once"); g_single = 1; op_compress2("compress2-big", c, g_src, 900000, NULL, 0); g_single = 0;
+        mark("small-after"); op_compress2("compress2-small2", c, g_src + 50, 2500, NULL, 0);
+        mark("stream-after"); op_cstream("cstream-after", c, g_src + 99, 30000, 4000, 1000, 0);
+        mark("free"); fr_cctx(c);
+    } else {
+        ZSTD_DCtx* d;
+        mark("create"); d = mk_dctx(); if (!d) return;
+        mark("small"); op_dstream("dstream-small", d, g_fr_small, g_fr_small_n, g_src, 3000, 4096, 100000);
+        mark("big-once"); g_single = 1; op_dstream("dstream-big", d, g_fr_big, g_fr_big_n, g_src + 5000, 300000, 50000, 400000); g_single = 0;
+        mark("small-after"); op_dstream("dstream-small2", d, g_fr_small, g_fr_small_n, g_src, 3000, 333, 500);
+        mark("big-after"); op_dstream("dstream-big2", d, g_fr_big, g_fr_big_n, g_src + 5000, 300000, 1000, 5000);
+        mark("free"); fr_dctx(d);
+    }
 }
 
 static size_t do_load_dict(ZSTD_CCtx* c, int byRef, const char* dict) {
@@ -634,6 +661,7 @@ static const scen_t g_scen[] = {
     { "ddict_copy", sc_ddict, 0, 0 }, { "ddict_ref", sc_ddict, 1, 0 },
     { "multi_ddict_20", sc_multi_ddict, 0, 0 }, { "multi_ddict_40", sc_multi_ddict, 1, 1 },
     { "copy_cctx", sc_copy_cctx, 0, 0 },
+    { "compress_fail_then_small", sc_fail_then_small, 0, 0 }, { "dstream_fail_then_small", sc_fail_then_small, 1, 0 },
     { "train_cover", sc_train, 0, 0 }, { "train_fastcover", sc_train, 1, 0 }, { "train_legacy", sc_train, 2, 0 }, { "train_default", sc_train, 3, 1 },
     { "train_opt_cover_mt", sc_train, 4, 1 }, { "train_opt_fastcover_mt", sc_train, 5, 1 },
     { "train_finalize", sc_train, 6, 0 }, { "train_add_entropy", sc_train, 7, 0 },
